@@ -220,7 +220,8 @@ def oracle_units(ck, tier, deep):
     for it in range(6 if not deep else 40):
         n = int(rng.choice([31, 61, 101]))
         i = np.arange(n, dtype=float)
-        grids = {"uniform": i * 0.7, "stretched": i * (1 + 0.004 * i), "quadratic": 0.5 * i + 0.01 * i ** 2}
+        grids = {"uniform": i * 0.7, "stretched": i * (1 + 0.004 * i), "quadratic": 0.5 * i + 0.01 * i ** 2,
+                 "half-pixel": (i + 0.5) * 0.7, "offset": 12.0 + i * (1 + 0.004 * i)}      # (grids that do not start on the axis)
         f = np.exp(-(i / n * 3) ** 2)[None, :] * np.array([[1.0], [0.3]])
         for gname, r in grids.items():
             for direction in ("forward", "inverse"):
